@@ -60,7 +60,14 @@ def check_line(l, t, off):
 
 
 def gen_quad(rng):
-    fam = rng.choice(['random', 'linear-x', 'linear-y', 'int', 'flat', 'linear-decimal'])
+    fam = rng.choice(['random', 'linear-x', 'linear-y', 'int', 'flat', 'linear-decimal', 'flat-start'])
+    if fam == 'flat-start':
+        # the control point has EXACTLY the abscissa (or ordinate) of the start (or end) point: the linear coefficient of that coordinate's quadratic is 0.0
+        a = P(float(rng.randint(-200, 200)), float(rng.randint(-200, 200))) if rng.random() < 0.6 else P(rng.uniform(-200, 200), rng.uniform(-200, 200))
+        q = QuadraticBezier(a, P(a.x, a.y + rng.choice([-1, 1]) * rng.uniform(20, 300)), P(a.x + rng.choice([-1, 1]) * rng.uniform(20, 300), a.y + rng.uniform(-300, 300)))
+        if rng.random() < 0.5: q = QuadraticBezier(*[P(p.y, p.x) for p in q.points])
+        if rng.random() < 0.5: q = QuadraticBezier(q[2], q[1], q[0])
+        return fam, q
     if fam == 'linear-decimal':
         # control point midway in one coordinate, with decimal (non-dyadic) coordinates: p0 - 2 p1 + p2 is rounding noise, not 0.0
         d = lambda: rng.randint(-3000, 3000) / rng.choice([10.0, 100.0, 1000.0])
@@ -121,9 +128,24 @@ def gen_cubic(rng):
     return CubicBezier(*[P(x, rng.uniform(-200, 200)) for x in xs])
 
 
+SHORT_CUBIC = 15.0      # below this length the coarse search of CubicBezier.tOfPoint is coarser than the clause allows (recorded finding C15-cubic-short-lookup)
+
+
+def true_length(c, n=400):
+    pts = [(p.x, p.y) for p in c.points]
+    qs = [ref.bern(pts, i / n) for i in range(n + 1)]
+    return sum(math.hypot(b[0] - a[0], b[1] - a[1]) for a, b in zip(qs, qs[1:]))
+
+
+def cubic_class(c):
+    """known class, from the input alone: a cubic shorter than SHORT_CUBIC units (its true length; the look-up table of regularSampleTValue has only
+    floor(length)+1 entries, one per 1/length of the parameter, and the bisection can move at most 0.02 away from the best of them)"""
+    return 'C15-cubic-short-lookup' if true_length(c) < SHORT_CUBIC else 'C15-cubic'
+
+
 def check_cubic(c, t):
     L = c.length
-    if L < 10: return None
+    if not (L > 0): return None
     pt = c.pointAtTime(t)
     try:
         tau = c.tOfPoint(pt)
@@ -158,7 +180,17 @@ def search(ctx):
         f = check_cubic(c, t)
         if f is None: continue
         ev += 1; dist['cubic'] = dist.get('cubic', 0) + 1; seen.add((gen.seg_key(c), t))
-        if f: fails.append({'class': 'C15-cubic', 'what': f[0], 'input': {'kind': 'cubic', 'segment': gen.seg_json(c), 't': t}, 'observed': f, 'expected': 'within 2% of the length'})
+        if f: fails.append({'class': cubic_class(c), 'what': f[0], 'input': {'kind': 'cubic', 'segment': gen.seg_json(c), 't': t}, 'observed': f, 'expected': 'within 2% of the length'})
+    # short cubics (1 .. 40 units): the recorded finding below 15 units, the clause itself above
+    for _ in range(ctx.n(60, 1200)):
+        c0 = gen_cubic(rng); L0 = c0.length
+        if not (L0 > 0): continue
+        k = 10 ** rng.uniform(0, 1.6) / L0; o = c0[0]
+        c = CubicBezier(*[P(o.x + (q.x - o.x) * k, o.y + (q.y - o.y) * k) for q in c0.points]); t = gen.tvalue(rng)
+        f = check_cubic(c, t)
+        if f is None: continue
+        ev += 1; dist['cubic/short'] = dist.get('cubic/short', 0) + 1
+        if f: fails.append({'class': cubic_class(c), 'what': f[0], 'input': {'kind': 'cubic', 'segment': gen.seg_json(c), 't': t}, 'observed': f, 'expected': 'within 2% of the length'})
     # handles bunched at one end: the curve is traversed very unevenly in t (the last tenth of the parameter covers most of the length); queries in the fast part
     for _ in range(ctx.n(25, 400)):
         a = P(rng.uniform(-100, 100), rng.uniform(-100, 100)); far = P(rng.uniform(400, 1200) * rng.choice([-1, 1]), rng.uniform(200, 800) * rng.choice([-1, 1]))
